@@ -91,6 +91,33 @@ func runAbort(a AbortCase) {
 		if err != nil {
 			return
 		}
+		if a.Abort == "patient" {
+			// a sender as patient as the real one: it writes End only once the receiver has
+			// confirmed both files, then finishes its streams and waits for the receiver to end
+			steps := c02rSteps(a.Streams)
+			for _, st := range steps[:len(steps)-2] {
+				st.do(ctrl, ds)
+			}
+			confirmed := 0
+			for confirmed < 2 {
+				typ, msg, err := transfer.VerifReadControlMessage(ctrl)
+				if err != nil {
+					return
+				}
+				if typ == 0x13 {
+					if fd, ok := msg.(transfer.FileDone); ok && fd.OK {
+						confirmed++
+					}
+				}
+			}
+			for _, st := range steps[len(steps)-2:] {
+				st.do(ctrl, ds)
+			}
+			ctrl.Close()
+			vrt.Block("wait-receiver", func() bool { return o.returned })
+			cl.Close()
+			return
+		}
 		for i, st := range c02rSteps(a.Streams) {
 			if i >= a.Prefix {
 				break
@@ -142,6 +169,11 @@ func checkAbort(a AbortCase, x *vrt.Exec) {
 		res.InfraError("%s: outcome %s %s", a, x.Outcome, x.Detail)
 		return
 	}
+	if a.Abort == "patient" && o.err != nil {
+		res.Violate("failure", "xfer/c02", map[string]any{"side": "receiver", "fault": "none", "class": "healthy-transfer-fails"},
+			fmt.Sprintf("%s: a patient, honest sender delivered everything and the receiver returned %v", a, o.err), rp)
+		return
+	}
 	if o.err != nil {
 		return
 	}
@@ -191,6 +223,11 @@ func modeC02R() {
 					jobs = append(jobs, job{a, b})
 				}
 			}
+		}
+	}
+	for _, streams := range []int{1, 2} {
+		for _, resume := range []bool{true, false} {
+			jobs = append(jobs, job{AbortCase{Streams: streams, Prefix: len(c02rSteps(streams)), Abort: "patient", Resume: resume}, 2})
 		}
 	}
 	for i, j := range jobs {
